@@ -4,5 +4,5 @@
 V=$(cd "$(dirname "$0")/.." && pwd)
 out=${1:-/tmp/regress}
 "$V/scripts/seeded_all.sh" > "$out.seeds" 2>&1
-ls "$V"/benign/*.diff | xargs -P 4 -I{} sh -c "$V/scripts/refac_eval.sh {} 2>&1 | cut -c1-300" > "$out.benign" 2>&1
+ls "$V"/benign/*.diff | xargs -P 10 -I{} sh -c "$V/scripts/refac_eval.sh {} 2>&1 | cut -c1-300" > "$out.benign" 2>&1
 echo FINISHED >> "$out.benign"
